@@ -34,6 +34,9 @@ type C20Case struct {
 	// WindowMs > 0: a limit so low that a transfer exceeding the burst by more than the tolerance cannot be waited
 	// for: burst + 512 KiB are offered, the clients watch for this long and leave; only what passed is judged.
 	WindowMs int `json:"window_ms,omitempty"`
+	// TimeoutMs > 0: the proxy is built with ReadTimeout and WriteTimeout of that length (library users can set them)
+	// and the transfer is too long to finish in time: the proxy cuts it; what passed until then obeys the limit.
+	TimeoutMs int `json:"timeout_ms,omitempty"`
 	// Stack: "" plain listener | "pp" PROXY-protocol listener | "tls" https listener - the limits belong to the
 	// listener whatever else is stacked on it
 	Stack string `json:"stack,omitempty"`
@@ -55,7 +58,11 @@ func genC20(t *rapid.T) C20Case {
 			c.ReadLimit = 64 << 10
 		}
 	default:
-		if rapid.IntRange(0, 3).Draw(t, "lowrate") == 0 {
+		if !strings.HasPrefix(c.Dir, "tunnel") && rapid.IntRange(0, 4).Draw(t, "withtimeout") == 0 {
+			c.TimeoutMs = 1200
+			c.ExtraMs = 3000 // three seconds' worth above the burst: cannot finish within the time-out
+		}
+		if c.TimeoutMs == 0 && rapid.IntRange(0, 3).Draw(t, "lowrate") == 0 {
 			// limits below the size of one I/O call of the proxy (4 KiB buffered writes, 32 KiB tunnel copies)
 			rate = rapid.SampledFrom([]int{2 << 10, 8 << 10, 24 << 10, 100 << 10}).Draw(t, "lowratev")
 			c.WindowMs = 1200
@@ -204,6 +211,9 @@ func runC20once(c C20Case) (fails []vstat.Failure) {
 		return []vstat.Failure{vstat.Failf("C20:harness", "origin: %v", err)}
 	}
 	po := ProxyOpts{ReadLimit: int64(c.ReadLimit), WriteLimit: int64(c.WriteLimit), ShutdownTimeout: time.Second}
+	if c.TimeoutMs > 0 {
+		po.ReadTimeout, po.WriteTimeout = time.Duration(c.TimeoutMs)*time.Millisecond, time.Duration(c.TimeoutMs)*time.Millisecond
+	}
 	var ca *CA
 	switch c.Stack {
 	case "pp":
@@ -275,6 +285,9 @@ func runC20once(c C20Case) (fails []vstat.Failure) {
 				conn = t
 			}
 			timedOut := func(err error) bool {
+				if c.TimeoutMs > 0 && limit > 0 {
+					return true // the proxy ends the transfer at its time-out: the observation ends there
+				}
 				var ne net.Error
 				return windowed && errors.As(err, &ne) && ne.Timeout()
 			}
@@ -351,6 +364,10 @@ func runC20once(c C20Case) (fails []vstat.Failure) {
 				collect()
 				return
 			}
+			if c.TimeoutMs > 0 && limit > 0 {
+				collect() // whatever the proxy answered after cutting the upload
+				return
+			}
 			if err != nil || m.Status != 200 {
 				r.err = fmt.Errorf("upload reply: %v", err)
 				return
@@ -403,6 +420,9 @@ func classifyC20(c C20Case) (bool, string, []string) {
 	cls := []string{"dir-" + c.Dir, fmt.Sprintf("conns=%d", c.Conns), "listener-" + c.Stack}
 	if c.WindowMs > 0 {
 		cls = append(cls, "limit-below-one-io-call")
+	}
+	if c.TimeoutMs > 0 {
+		cls = append(cls, "cut-by-server-timeout")
 	}
 	down := strings.HasSuffix(c.Dir, "download")
 	lim := c.WriteLimit
